@@ -15,7 +15,7 @@ EXPLANATION = (
     "value (field writes and DerefMut uses are enumerated crate-wide); (R5) ElitistArchive::update over every weak "
     "ordering of archive (<=2) + population (<=2) and every capacity 0..3 leaves exactly the k best of everything "
     "shown; ElitistArchiveIntoPopulation appends exactly the elitists not already present (equality on solution and "
-    "objective), in all presence patterns. (R4) template-level placement of the best-update is checked with the "
+    "objective), each exactly once, in all presence patterns and for every repetition pattern of up to 3 elitists (an archive may hold equal individuals). (R4) template-level placement of the best-update is checked with the "
     "template interpreter (see C16). NOT decided: `reported best = minimum the objective returned during a run` as a "
     "number over whole runs.")
 ASSUMPTIONS = ["sort_unstable_by_key / min_by_key behave as documented"]
